@@ -78,16 +78,29 @@ def reg_facts(machine):
             child_ids[r] = cid
         if isinstance(v, ScalarType) and v.is_literal() and type(ch).__name__ == "Literal":
             lit_written[cid] = (str(v.value), type(v).__name__)
-    return {"lit_written": lit_written, "fn_ids": fn_ids, "child_ids": child_ids}
+    from ..oracle import term
+    acc_index = {}
+    for r, v in enumerate(machine.regs):
+        ch = getattr(v, "child", None)
+        if type(ch).__name__ == "NTupleAccessor":
+            acc_index[r] = ch.index
+    return {"lit_written": lit_written, "fn_ids": fn_ids, "child_ids": child_ids, "acc_index": acc_index,
+            "desc": [interp.describe(v) for v in machine.regs],
+            "nodes": term.build(machine.events, machine.results, machine.regs)}
 
 
-def run_programs(tag, n, max_cmds=25, corpus=()):
+def run_programs(tag, n, max_cmds=25, corpus=(), scenario_variations=8):
     """Generate and run n programs (after the corpus). Returns dict records."""
     out = []
     for ev in corpus:
         reset_globals()
         m = interp.run_events(copy.deepcopy(ev))
         out.append(_record(("corpus", len(out)), m, {}))
+    # a sweep over the structured scenarios first (several variations of each)
+    for kind in programs.Gen.SCENARIOS:
+        for var in range(scenario_variations):
+            m, dist = programs.generate(tag, var, max_cmds=max_cmds, scenario=kind)
+            out.append(_record((tag, f"scenario:{kind}:{var}"), m, dist))
     for idx in range(n):
         m, dist = programs.generate(tag, idx, max_cmds=max_cmds)
         out.append(_record((tag, idx), m, dist))
